@@ -93,6 +93,7 @@ type Sched struct {
 	lastKind      string
 	lastObj       uintptr
 	lastPicked    *Thread
+	Stall         time.Duration // virtual time that passed through "clock" deviations (all threads stalled)
 	Spinning      bool // WaitSettled was released by its step budget, not by quiescence
 	spawnFlags    map[string]bool
 	quiesceWaiter *Thread
@@ -392,7 +393,9 @@ func (s *Sched) pick(self *Thread) *Thread {
 		preempt := self != nil && en[0] == self
 		c := s.choose(n, KSched, preempt, clockAt)
 		if c == clockAt {
+			before := s.clock
 			s.advanceClock()
+			s.Stall += time.Duration(s.clock - before)
 			continue
 		}
 		t := en[c]
